@@ -8,7 +8,8 @@ SeqsUpTo(Chars, n) == IF n = 0 THEN {<<>>}
                       ELSE LET S == SeqsUpTo(Chars, n - 1)
                            IN S \cup {Append(s, c) : s \in {t \in S : Len(t) = n - 1}, c \in Chars}
 
-AppSeqsDef == { <<>>, <<"A">>, <<"A","B">>, <<"A","A">>, <<"B","A","B">>, <<"A","B","A","A">> }
+AppSeqsDef == { <<>>, <<"A">>, <<"A","B">>, <<"A","A">>, <<"B","A","B">>, <<"A","B","A","A">>,
+                <<"A","A","B","C">>, <<"C","A","B","A","C","B">>, <<"B","B","A","C","A">> }
 RootRefSeqsDef == { <<>>, <<"A">>, <<"Z","A">>, <<"B","Z","B">> }
 NamesDef == { <<"a">>, <<"a",":",":","b">>, <<"a",":","b">>, <<>>, <<"a",":",":">>, <<":",":","a">>, <<"a",":",":",":",":","b">> }
 RefsDef == { <<>>, <<"A">>, <<"Z","B">>, <<"B","A","Y","A">> }
